@@ -1098,14 +1098,20 @@ impl Formatter {
     }
 
     fn format_match_arm(&mut self, arm: &MatchArm) {
-        self.format_pattern(&arm.pattern.node);
         if let Some(guard) = &arm.guard {
+            // Only the `case <pattern> if <guard>:` arm syntax accepts a guard.
+            self.writer.write("case ");
+            self.format_pattern(&arm.pattern.node);
             self.writer.write(" if ");
             self.format_expr(&guard.node);
+            self.writer.write(":");
+        } else {
+            self.format_pattern(&arm.pattern.node);
+            self.writer.write(" =>");
         }
-        self.writer.write(" => ");
         match &arm.body {
             MatchBody::Expr(expr) => {
+                self.writer.write(" ");
                 self.format_expr(&expr.node);
                 self.writer.newline();
             }
@@ -1126,7 +1132,8 @@ impl Formatter {
             Pattern::Binding(name) => self.writer.write(name),
             Pattern::Literal(lit) => self.format_literal(lit),
             Pattern::Constructor(name, patterns) => {
-                self.writer.write(name);
+                // The parser stores `Type.Variant` as "Type::Variant"; patterns are spelled with a dot.
+                self.writer.write(&name.replace("::", "."));
                 if !patterns.is_empty() {
                     self.writer.write("(");
                     for (i, p) in patterns.iter().enumerate() {
